@@ -75,7 +75,7 @@ def applyOp (infoOf : AMsg → MsgInfo) (w : World) : Op → World
   | .settle n => settle infoOf n w
   | .hold ai v => { w with st := w.st.modTApp ai fun x => { x with held := v } }
   | .outcome ai o =>
-    { w with st := (w.st.modApp ai fun x => { x with raiseOnRequest := o == "raise" }).modTApp ai fun x => { x with outcome := o } }
+    { w with st := (w.st.modApp ai fun x => { x with raiseOnRequest := o == "raise" || o == "raise0" }).modTApp ai fun x => { x with outcome := o } }
   | .handler k => { w with st := runHandler infoOf w.st k }
   | .ans ai req rc => { w with st := appSendAnswer w.st ai req (infoOf req) rc }
   | .reqBegin ai m => { w with st := (appSendRequestBegin w.st ai m (infoOf m)).1 }
